@@ -439,3 +439,29 @@ class _Derived(_Base):
 
 def superattr(a, b):
     return _Derived(a, b).scaled(2)
+
+
+class _QuietError(Exception):
+    """An exception whose instances are falsy (e.g. one that carries an empty list of problems)."""
+
+    def __init__(self, problems):
+        super().__init__(problems)
+        self.problems = problems
+
+    def __len__(self):
+        return len(self.problems)
+
+
+def falsyexc(a, b):
+    r = 0
+    try:
+        if a < b:
+            raise _QuietError([])
+        if a == b:
+            raise _QuietError([a])
+        r += 1
+    except _QuietError as e:
+        r += 2 + len(e)
+    except ValueError:
+        r += 100
+    return r
